@@ -9,3 +9,12 @@ pub mod rng;
 pub mod scan;
 
 pub mod mon_scancode;
+pub mod mon_resync;
+pub mod mon_pairing;
+pub mod mon_xlate;
+pub mod mon_frame;
+pub mod cube;
+pub mod mon_layout;
+pub mod mon_events;
+pub mod mon_compose;
+pub mod mon_nopanic;
